@@ -860,7 +860,7 @@ class FileDatastore(GenericBaseDatastore[StoredFileInfo]):
         # dataIds returning the same and causing overwrite confusion.
         template.validateTemplate(ref)
 
-        location = self.locationFactory.fromPath(template.format(ref), trusted_path=True)
+        location = self.locationFactory.fromPath(template.format(ref), trusted_path=False)
 
         # Get the formatter based on the storage class
         storageClass = ref.datasetType.storageClass
@@ -1267,7 +1267,7 @@ class FileDatastore(GenericBaseDatastore[StoredFileInfo]):
         # Ingesting a file from outside the datastore.
         # This involves a new name.
         template = self.templates.getTemplate(ref)
-        location = self.locationFactory.fromPath(template.format(ref), trusted_path=True)
+        location = self.locationFactory.fromPath(template.format(ref), trusted_path=False)
 
         # Get the extension
         ext = srcUri.getExtension()
